@@ -2,6 +2,7 @@
   C11 — A newer listening stream owns the session; an old one's exit never evicts it.
 -/
 import Mcp.Model.Streams
+import Mcp.Model.StreamsSplit
 import Mcp.Gen.HandleGet
 namespace Mcp.Props.C11
 open Mcp.Streams
@@ -260,6 +261,30 @@ theorem C11_steps_atomic_fact : Mcp.Gen.handleGetStoreAtomic = true ∧ Mcp.Gen.
     nothing in the shared slot — by then the slot may belong to a newer stream ("a stream that ends removes only
     itself"). -/
 theorem C11_client_slot_fact : Mcp.Gen.clientGetReplaceLocked = true ∧ Mcp.Gen.clientGetExitOwnOnly = true := by decide
+
+/-- Why `handleGetExitAtomic` is an obligation: with the identity check and the delete in two critical sections (good
+    facts otherwise) an old stream that ended by itself evicts a stream registered between its check and its delete — the
+    new stream is listening, a send after its headers fails. -/
+theorem C11_split_exit_witness :
+    ∃ x, runS ⟨false, true, true⟩ {}
+        [.base (.open_ 0), .base (.store 0), .base (.flush 0), .base (.clientClose 0), .base (.wake 0), .exitCheck 0,
+         .base (.open_ 1), .base (.store 1), .base (.flush 1), .exitDelete 0, .base (.send 7)] = some x ∧
+      listening x.s 1 = true ∧ x.s.table = none ∧ x.s.failed = [7] ∧ x.s.delivered = [] := by
+  refine ⟨_, rfl, ?_⟩; decide
+
+/-- Why `handleGetStoreAtomic` is an obligation: with the look-up of the predecessor and the store in two critical
+    sections two racing re-opens both cancel only the stream they saw: the one whose entry is overwritten stays open
+    (two listeners), and it never receives anything. -/
+theorem C11_split_store_witness :
+    ∃ x, runS ⟨false, true, true⟩ {}
+        [.base (.open_ 0), .base (.store 0), .base (.flush 0), .base (.open_ 1), .base (.open_ 2),
+         .storeLookup 1, .storeLookup 2, .storeCommit 1, .base (.flush 1), .storeCommit 2, .base (.flush 2), .base (.send 7)] = some x ∧
+      listening x.s 1 = true ∧ listening x.s 2 = true ∧ x.s.table = some 2 ∧ x.s.delivered = [(2, 7)] := by
+  refine ⟨_, rfl, ?_⟩; decide
+
+/-- The split model restricted to base events is the model the theorems above are about. -/
+theorem C11_split_model_conservative (f : Facts) (x : StS) (e : Ev) :
+    stepS f x (.base e) = (step f x.s e).map fun s' => { x with s := s' } := rfl
 
 /-- Witness for the bad region "exit deletes by key" (the tree before its `fix:` commit): after a reconnect the old
     handler's exit evicts the new stream and a send fails although stream 1 is listening. -/
